@@ -647,6 +647,15 @@ func (e *env) drainLoop(sel *ast.SelectStmt, ind string) string {
 	return sb.String()
 }
 
+func sortedValues(m map[string]string) []string {
+	out := []string{}
+	for _, v := range m {
+		out = append(out, v)
+	}
+	sort.Strings(out)
+	return out
+}
+
 // mutCall: `r.f()` where f is an already translated method of the receiver that changes it and has one result
 func (e *env) mutCall(x ast.Expr) *tfun {
 	call, ok := x.(*ast.CallExpr)
@@ -967,8 +976,14 @@ func (e *env) block(stmts []ast.Stmt, fall string, ind string) string {
 				sb.WriteString(fmt.Sprintf("%slet ev := %q\n", ind, e.t.p.str(call.Args[0])+"|"+msg))
 				continue
 			}
-			if nm, ok := e.f.calls[txt]; ok && len(call.Args) == 1 {
-				x, _ := e.expr(call.Args[0])
+			if nm, ok := e.f.calls[txt]; ok && len(call.Args) <= 1 {
+				x := "0"
+				if len(call.Args) == 1 {
+					if _, isIn := e.f.inputs[e.t.p.str(call.Args[0])]; isIn || txt != "close" {
+						x, _ = e.expr(call.Args[0])
+					}
+				}
+				// (<name>Count: how often the call has been made on this path)
 				sb.WriteString(fmt.Sprintf("%slet %sCalled := true\n%slet %sArg := %s\n", ind, nm, ind, nm, x))
 				continue
 			}
@@ -1409,7 +1424,7 @@ func (t *translator) translate(sp tspec) (res *tfun, why string) {
 		if sp.captureEmit {
 			e.setVar("ev", tErr)
 		}
-		for _, nm := range sp.captureCalls {
+		for _, nm := range sortedValues(sp.captureCalls) {
 			e.setVar(nm+"Called", tBool)
 			e.setVar(nm+"Arg", tInt)
 		}
@@ -1447,6 +1462,14 @@ func (t *translator) translate(sp tspec) (res *tfun, why string) {
 			}
 		}
 	}
+	if sp.sliceAt == "" {
+		for _, nm := range sortedValues(sp.captureCalls) {
+			e.setVar(nm+"Called", tBool)
+			e.setVar(nm+"Arg", tInt)
+			f.resNames = append(f.resNames, nm+"Called")
+			f.resTypes = append(f.resTypes, tBool)
+		}
+	}
 	as := map[string]bool{}
 	e.assigned(stmts, as)
 	f.mutates = as[e.rname]
@@ -1478,6 +1501,9 @@ func (t *translator) translate(sp tspec) (res *tfun, why string) {
 			f.resTypes = append(f.resTypes, e.vars[nm])
 		}
 	} else {
+		for _, nm := range sortedValues(sp.captureCalls) {
+			body += fmt.Sprintf("  let %sArg : Int := 0\n", nm)
+		}
 		for _, nm := range f.resNames {
 			zero := "0"
 			switch e.vars[nm] {
@@ -1622,6 +1648,8 @@ func transAll(v1, v2 *pkg) string {
 		{file: "batcher.go", recv: "Batcher", name: "NeedsCapacity", lean: "v1_NeedsCapacity"},
 		{file: "batcher.go", recv: "Batcher", name: "Start", lean: "v1_capacityArm", sliceAt: "if r.ratelimiter != nil {", sliceHas: "r.NeedsCapacity()", sliceN: 1, sliceOut: []string{"giveMeCalled", "giveMeArg"},
 			inputs: map[string]string{"r.ratelimiter != nil": "limited:bool"}, captureCalls: map[string]string{"r.ratelimiter.GiveMe": "giveMe"}},
+		{file: "batcher.go", recv: "Batcher", name: "Stop", lean: "v1_Stop", view: "_st",
+			inputs: map[string]string{"r.stop != nil": "hasStop:bool"}, captureCalls: map[string]string{"close": "closeStop", "r.shutdown.Wait": "wait"}},
 		{file: "batcher.go", recv: "Batcher", name: "Pause", lean: "v1_Pause", view: "_pz", chanCap: map[string]string{"pause": "1"}},
 		{file: "batcher.go", recv: "Batcher", name: "resume", lean: "v1_resume", view: "_ph"},
 		{file: "batcher.go", recv: "Batcher", name: "Start", lean: "v1_pauseArm", view: "_ph", sliceAt: "r.emit(PauseEvent", sliceN: 4, sliceOut: []string{"sleepCalled", "sleepArg"},
@@ -1629,6 +1657,8 @@ func transAll(v1, v2 *pkg) string {
 		{file: "batcher.go", recv: "Batcher", name: "Start", lean: "v1_effMot", sliceAt: "maxOperationTime := r.maxOperationTime", sliceN: 2, sliceOut: []string{"maxOperationTime"},
 			inputs: map[string]string{"r.maxOperationTime": "mot:int", "watcher.MaxOperationTime()": "wMot:int"}},
 		{file: "batcher.go", recv: "Batcher", name: "applyDefaults", lean: "v1_applyDefaults", view: "_cfg"},
+		{file: "batcher.go", recv: "Batcher", name: "Start", lean: "v1_startHead", view: "_cfg", until: "capacityTimer :=",
+			inputs: map[string]string{"r.phase": "phase:int", "r.buffer == nil": "noBuffer:bool"}},
 		{file: "batcher.go", recv: "Batcher", name: "Enqueue", lean: "v1_enqueueAdmit", until: "r.incTarget", opaque: true, view: "_cfg"},
 		{file: "operation.go", recv: "Operation", name: "MakeAttempt", lean: "v1_op_MakeAttempt"},
 		{file: "operation.go", recv: "Operation", name: "Attempt", lean: "v1_op_Attempt"},
@@ -1667,6 +1697,8 @@ func transAll(v1, v2 *pkg) string {
 		{file: "batcher.go", recv: "batcher", name: "processBatch", lean: "v2_effMot", sliceAt: "maxOperationTime := r.maxOperationTime", sliceN: 2, sliceOut: []string{"maxOperationTime"},
 			inputs: map[string]string{"r.maxOperationTime": "mot:int", "watcher.MaxOperationTime()": "wMot:int"}},
 		{file: "batcher.go", recv: "batcher", name: "applyDefaults", lean: "v2_applyDefaults", view: "_cfg"},
+		{file: "batcher.go", recv: "batcher", name: "Start", lean: "v2_startHead", view: "_cfg", until: "capacityTimer :=",
+			inputs: map[string]string{"r.phase": "phase:int"}},
 		{file: "batcher.go", recv: "batcher", name: "Enqueue", lean: "v2_enqueueAdmit", until: "r.incTarget", opaque: true, view: "_cfg"},
 		{file: "operation.go", recv: "operation", name: "MakeAttempt", lean: "v2_op_MakeAttempt"},
 		{file: "operation.go", recv: "operation", name: "Attempt", lean: "v2_op_Attempt"},
